@@ -277,26 +277,32 @@ void reschedule(bool exiting = false, SimThread *exiting_self = 0)
   ++G.st.steps;
   if (G.st.steps > G.cfg.max_steps)
     fatal("no-progress", "more than max_steps scheduler decisions\n" + sim_dump_threads());
-  maybe_spurious();
-  std::vector<int> en;
-  int cur_idx = -1;
-  for (size_t i = 0; i < G.threads.size(); ++i)
-    if (enabled(G.threads[i]))
+  SimThread *next;
+  {
+    // everything allocated for the decision is released *before* the token is handed over: a thread that has
+    // passed the token on must not touch the heap any more (its frees would interleave with the next thread's
+    // allocations in real time and make heap layouts irreproducible)
+    maybe_spurious();
+    std::vector<int> en;
+    int cur_idx = -1;
+    for (size_t i = 0; i < G.threads.size(); ++i)
+      if (enabled(G.threads[i]))
+        {
+  	if (G.threads[i] == self && !exiting) cur_idx = (int) en.size();
+  	en.push_back((int) i);
+        }
+    if (en.empty())
+      fatal("deadlock", "no enabled thread\n" + sim_dump_threads());
+    if ((long) en.size() > G.st.max_enabled) G.st.max_enabled = (long) en.size();
+    int chosen = 0;
+    if (en.size() > 1)
       {
-	if (G.threads[i] == self && !exiting) cur_idx = (int) en.size();
-	en.push_back((int) i);
+        int dflt = cur_idx >= 0 ? cur_idx : 0;
+        int pick = G.cfg.use_replay ? dflt : policy_pick(en, cur_idx);
+        chosen = decide('T', (int) en.size(), dflt, pick);
       }
-  if (en.empty())
-    fatal("deadlock", "no enabled thread\n" + sim_dump_threads());
-  if ((long) en.size() > G.st.max_enabled) G.st.max_enabled = (long) en.size();
-  int chosen = 0;
-  if (en.size() > 1)
-    {
-      int dflt = cur_idx >= 0 ? cur_idx : 0;
-      int pick = G.cfg.use_replay ? dflt : policy_pick(en, cur_idx);
-      chosen = decide('T', (int) en.size(), dflt, pick);
-    }
-  SimThread *next = G.threads[en[chosen]];
+    next = G.threads[en[chosen]];
+  }
   if (next == self) return;
   ++G.st.switches;
   unpark(next);
